@@ -84,6 +84,14 @@ def check_property(a):
     os.makedirs(work, exist_ok=True)
     viol_dir = os.path.join(VERIF, 'work', 'violations')
     os.makedirs(viol_dir, exist_ok=True)
+    try:
+        return _check_property(a, pid, t0, work, viol_dir)
+    finally:
+        if not a.keep:
+            shutil.rmtree(work, ignore_errors=True)
+
+
+def _check_property(a, pid, t0, work, viol_dir):
     build_s = R.build_harness()
     rng = random.Random(a.seed * 1000003 + int(pid[1:]))
     known = load_known()
@@ -153,8 +161,6 @@ def check_property(a):
 
     if not a.replay:
         write_evidence(pid, a, scenarios, byrun, mc_info, s2i, states, nevents, n_viol, time.time() - t0)
-    if not a.keep:
-        shutil.rmtree(work, ignore_errors=True)
     R.log('[%s] %s: %d runs, %d events, %d violations, %.1fs' % (pid, a.tier, len(byrun), nevents, n_viol, time.time() - t0))
     return rc
 
